@@ -112,6 +112,7 @@ const (
 	strokeNone = iota
 	strokeBlue
 	strokeBlueHalf
+	strokeRed // same colour as fillRed
 )
 const (
 	joinMiter4 = iota
@@ -168,6 +169,7 @@ var styles = []styleSpec{
 	{name: "stroke blue w2 dashes [2 1]", stroke: strokeBlue, width: 2, dash: 1},
 	{name: "stroke blue EvenOdd", stroke: strokeBlue, width: 1, evenOdd: true},
 	{name: "fill red + stroke blue", fill: fillRed, stroke: strokeBlue, width: 1},
+	{name: "fill red + stroke red w2 (same colour)", fill: fillRed, stroke: strokeRed, width: 2},
 	{name: "fill red + stroke blue alpha 0.5", fill: fillRed, stroke: strokeBlueHalf, width: 1},
 	{name: "fill red alpha 0.5 + stroke blue alpha 0.5", fill: fillRedHalf, stroke: strokeBlueHalf, width: 1},
 	{name: "fill gradient + stroke blue", fill: fillGradient, stroke: strokeBlue, width: 1},
@@ -206,6 +208,8 @@ func (s styleSpec) apply(ctx *canvas.Context) {
 		ctx.SetStrokeColor(colBlue)
 	case strokeBlueHalf:
 		ctx.SetStrokeColor(colBlueHalf)
+	case strokeRed:
+		ctx.SetStrokeColor(colRed)
 	}
 	ctx.SetStrokeWidth(s.width)
 	ctx.SetStrokeCapper([]canvas.Capper{canvas.ButtCap, canvas.RoundCap, canvas.SquareCap}[s.cap])
